@@ -149,7 +149,7 @@ CONN_BASE = {
     "relations": {},
     "monitor": mon_conn,
     "monitor_tagged": True,
-    "impl_only_prefixes": ("cn_",),
+    "conn_compare": True,
     "history_starts": ("cn_new",),
 }
 
